@@ -164,11 +164,20 @@ pub(super) fn do_sequence_press_logic(
     let mut res_overlapped = sequences.get_or_descendant_exists(&state.overlapped_sequence);
     let is_invalid_termination_overlapped = if res_overlapped == NotInTrie {
         // Try ending the overlapping and push overlapping seq again.
-        let index_of_last = state.overlapped_sequence.len() - 1;
-        state.overlapped_sequence[index_of_last] = KEY_OVERLAP_MARKER;
-        state.overlapped_sequence.push(pushed_into_overlap_seq);
-        res_overlapped = sequences.get_or_descendant_exists(&state.overlapped_sequence);
-        let index_of_last = index_of_last + 1;
+        // There is no overlapping to end if the previous element is the end marker itself (all
+        // keys were released since the previous press and the release handling has ended it) or
+        // a key that was not overlapping; a marker inserted there would never match anything.
+        let mut index_of_last = state.overlapped_sequence.len() - 1;
+        let no_overlap_to_end = index_of_last > 0 && {
+            let prev = state.overlapped_sequence[index_of_last - 1];
+            prev == KEY_OVERLAP_MARKER || prev & KEY_OVERLAP_MARKER == 0
+        };
+        if !no_overlap_to_end {
+            state.overlapped_sequence[index_of_last] = KEY_OVERLAP_MARKER;
+            state.overlapped_sequence.push(pushed_into_overlap_seq);
+            res_overlapped = sequences.get_or_descendant_exists(&state.overlapped_sequence);
+            index_of_last += 1;
+        }
         if res_overlapped == NotInTrie {
             // Try checking the trie after setting the latest key to not have the overlapping
             // marker.
@@ -216,7 +225,8 @@ pub(super) fn do_sequence_press_logic(
                 .sequence
                 .extend(state.overlapped_sequence.iter().copied());
             if state.sequence.last().copied().unwrap_or(0) != KEY_OVERLAP_MARKER
-                && state.overlapped_sequence.last().copied().unwrap_or(0) >= KEY_OVERLAP_MARKER
+                && state.overlapped_sequence.last().copied().unwrap_or(0) & KEY_OVERLAP_MARKER
+                    == KEY_OVERLAP_MARKER
             {
                 // Always treat non-overlapping sequence as if overlap state has
                 // ended; if overlapped_sequence itself has an overlap state.
